@@ -1,4 +1,4 @@
-//go:build verif
+//go:build verif && !noquotas
 
 package engines
 
@@ -262,11 +262,4 @@ func runQuotaAdv(ctx *core.RunCtx) {
 		ctx.Count("probe.runs allocating over 32MiB", 1)
 	}
 	ctx.Count("alloc MiB total", int64(alloc>>20))
-}
-
-func tailStr(a []string, n int) []string {
-	if len(a) > n {
-		return a[len(a)-n:]
-	}
-	return a
 }
